@@ -129,6 +129,8 @@ fn bitpack_family(a: i32, b: i32, c: usize, bad: &mut u32) {
 #[test]
 fn c08_codec_differential() {
     let mut bad = 0u32;
+    // solver witnesses (hint sections of the failing Kani window harnesses, K = 2, omega = 8) first
+    // @WITNESS@
     hint_family::<2>(8, &mut bad);
     hint_family::<2>(4, &mut bad);
     hint_family::<4>(80, &mut bad);
